@@ -159,6 +159,66 @@ example : substHtmlWith BS.Gen.htmlTable BS.Gen.htmlTable.particlesAmp.reverse [
     substHtml BS.Gen.htmlTable [8807, 824] :=
   order_irrelevant _ tblOK_live _ (List.reverse_perm _) _
 
+/-! ## substitute_html5 ('html5')
+
+The full statement `∀ s, readText T late 0 (substHtml5 T s) = s` (and its attribute twin) is **false** of the code:
+`substitute_html5` escapes an `&` only when `(#\d+|#x[0-9a-fA-F]+|\w+);` follows, and a parser also resolves
+references without the `;`. The four refutations below are decided on the live tables and re-observed on the
+implementation by the check (known findings `C09-html5-*`). Proved: no raw brackets for all strings; the round trip
+for all strings without an ampersand (the whole table-driven part: every named character, multi-code-point entities,
+quotes). Not proved (left to the correspondence, which is exhaustive on the alphabet strings): the round trip for
+strings whose every `&` is either escaped by the first pass or followed by something no parser takes for a reference —
+it needs the fusion of the two passes (`escapeEntities` then the table pass) into one scan. -/
+
+/-- No raw `<` or `>` in the output of `substitute_html5`. -/
+theorem html5_no_raw_brackets (T : Tbl) (h : TblOK T = true) (s : PStr) :
+    60 ∉ substHtml5 T s ∧ 62 ∉ substHtml5 T s :=
+  let ⟨h1, _, h60, h62⟩ := tblOK_plain h
+  html_no_raw_gen T T.particles (htmlRep T) h1 h60 h62 _
+
+/-- For every string without an ampersand the output of `substitute_html5` is read back, as text, as the original. -/
+theorem html5_roundtrip_partial (T : Tbl) (h : TblOK T = true) (late : Bool) (s : PStr) (hs : 38 ∉ s) :
+    readText T late 0 (substHtml5 T s) = s := by
+  unfold substHtml5 substHtml5With
+  rw [escapeEntities_noamp T 0 s hs]
+  exact html_text_roundtrip_noamp T late T.particles (htmlRep T) (tblOK_plain h).1 s hs
+
+/-- The same through quoting and the attribute reader. -/
+theorem html5_attr_roundtrip_partial (T : Tbl) (h : TblOK T = true) (s : PStr) (hs : 38 ∉ s) :
+    readAttr T (quoteAttr (substHtml5 T s)) = some s := by
+  have := html_attr_roundtrip_noamp T T.particles (htmlRep T) (tblOK_plain h).1 (tblOK_quot h) s hs
+  rw [quote_read]
+  unfold quoteBody substHtml5 substHtml5With
+  rw [escapeEntities_noamp T 0 s hs]
+  split <;> simp [this.1, this.2]
+
+example : readText BS.Gen.htmlTable false 0 (substHtml5 BS.Gen.htmlTable [60, 8807, 824, 34, 39]) = [60, 8807, 824, 34, 39] :=
+  html5_roundtrip_partial _ tblOK_live _ _ (by decide)
+
+/-- Refutation 1 (`C09-html5-bare-legacy-ref`): `&lt x` is written unchanged and read back as `< x`, both as text and
+    as an attribute value. -/
+theorem html5_not_reversible_legacy_ref :
+    substHtml5 BS.Gen.htmlTable (ofS "&lt x") = ofS "&lt x" ∧
+    readText BS.Gen.htmlTable false 0 (substHtml5 BS.Gen.htmlTable (ofS "&lt x")) = ofS "< x" ∧
+    readAttr BS.Gen.htmlTable (quoteAttr (substHtml5 BS.Gen.htmlTable (ofS "&lt x"))) = some (ofS "< x") := by
+  decide +kernel
+
+/-- Refutation 2 (`C09-html5-bare-numeric-ref`): `&#65 x` is read back as `A x`. -/
+theorem html5_not_reversible_numeric_ref :
+    readText BS.Gen.htmlTable false 0 (substHtml5 BS.Gen.htmlTable (ofS "&#65 x")) = ofS "A x" ∧
+    readAttr BS.Gen.htmlTable (quoteAttr (substHtml5 BS.Gen.htmlTable (ofS "&#65 x"))) = some (ofS "A x") := by
+  decide +kernel
+
+/-- Refutation 3 (`C09-html5-unknown-ref-semicolon-dropped`): `&a-b;` is read back, as text, as `&a-b`. -/
+theorem html5_not_reversible_semicolon_dropped :
+    readText BS.Gen.htmlTable false 0 (substHtml5 BS.Gen.htmlTable (ofS "&a-b;")) = ofS "&a-b" := by
+  decide +kernel
+
+/-- Refutation 4 (`C09-html5-amp-hash-runaway`): after `&#x` the tokenizer takes the rest of the document for text. -/
+theorem html5_not_reversible_runaway :
+    readText BS.Gen.htmlTable false 0 (substHtml5 BS.Gen.htmlTable (ofS "&#x")) = ofS "&#x" ++ [RUNAWAY] := by
+  decide +kernel
+
 /-! ## the registered formatters -/
 
 /-- `Formatter.substitute` / `attribute_value` of a registered formatter whose function is `substitute_xml` (code 1) or
